@@ -545,6 +545,34 @@ pub fn run(ctx: &mut Ctx) {
         }
     });
 
+    // ------------------------------------------------ self-consistent cuts: the body cut at a position where no valid
+    // encoding of that message type ends, with the handshake length rewritten to the cut size (so the framing
+    // is fine and only the body's own structure is short): rejected, through the framed and the body parsers
+    ctx.floor("consistent-cuts", 8_000);
+    let n = ctx.tier.pick(32000, 320000);
+    ctx.family("consistent-cuts", n, |ctx, case: &mut Case| {
+        let r = &mut case.rng;
+        let (msg, name, cut) = match gen::consistent_cut(r) {
+            Some(x) => x,
+            None => return,
+        };
+        let x = gen::opaque(r, 5);
+        let mut input = msg.clone();
+        input.extend_from_slice(&x);
+        let got = ctx.guarded("parse_tls_message_handshake", &input, || classify(&parse_tls_message_handshake(&input)));
+        if let Some(out) = got {
+            ctx.eval();
+            ctx.count("consistent-cuts");
+            ctx.shape(&("consistent-cut", name, lc(cut), out.class()));
+            if out.is_ok() {
+                ctx.violation(
+                    format!("c04:must-reject:body-cut-short-with-consistent-length:{}", name),
+                    json!({"message": name, "cut_at_body_offset": cut, "outcome": out.show(), "input_hex": hex_short(&input)}),
+                );
+            }
+        }
+    });
+
 
     // ------------------------------------------------ body parsers taking the declared length as a parameter:
     // they must consume exactly `len` bytes of a longer buffer and refuse a shorter one
